@@ -70,7 +70,7 @@ def units(tier):
     step = 8 if tier == "quick" else 25
     no = len(_override_sigs(tier))
     return ([("untyped", tier, i, min(n, i + step)) for i in range(0, n, step)] + [("typed", tier, 0, 0)]
-            + [("override", tier, i, i + 1) for i in range(no)])
+            + [("override", tier, i, i + 1) for i in range(no)] + [("override-kinds", tier, 0, 0)])
 
 
 def _override_sigs(tier):
@@ -79,6 +79,61 @@ def _override_sigs(tier):
     if tier == "thorough":
         sigs = sigs + [p for p in name_sigs(2) if len(p) == 2][::9]
     return sigs
+
+
+def _override_kinds(res, tier, only=None):
+    """single inheritance, the method declared as plain method / staticmethod / classmethod in base and subclass alike: an override that is not reported
+    must bind every call shape the base method binds"""
+    from pyanalyze.error_code import ErrorCode
+    from pa.run import check, get_checker
+    sigs = _override_sigs(tier)
+    shapes = call_shapes()
+    ck = get_checker("c07ov", settings={ErrorCode.incompatible_override: True})
+
+    def table(params):
+        ns = {}
+        exec("def f(%s): pass" % S.render_params(params), ns)
+        row = 0
+        for i, (npos, kws) in enumerate(shapes):
+            try:
+                ns["f"](*([0] * npos), **{k: 0 for k in kws})
+                row |= 1 << i
+            except TypeError:
+                pass
+        return row
+    tabs = [table(p) for p in sigs]
+    for kind, deco, first in (("staticmethod", "    @staticmethod\n", ""), ("classmethod", "    @classmethod\n", "cls"), ("method", "", "self")):
+        lines, cases = [], []
+        for ai, pa_ in enumerate(sigs):
+            for ci, pc in enumerate(sigs):
+                if only is not None and [kind, ai, ci] != only:
+                    continue
+                k = len(cases)
+                hdr = lambda p: ", ".join(x for x in (first, S.render_params(p)) if x)
+                lines.append("class A%d:\n%s    def m(%s): pass\nclass C%d(A%d):\n%s    def m(%s): pass\n" % (k, deco, hdr(pa_), k, k, deco, hdr(pc)))
+                cases.append((ai, ci))
+        src = "".join(lines)
+        fails = check(src, checker=ck)
+        res.transitions += 1
+        per = 4 + 2 * bool(deco)
+        bad_lines = {f.get("lineno") for f in fails if f["code"].name == "incompatible_override"}
+        for k, (ai, ci) in enumerate(cases):
+            res.states += 1
+            res.validated += 1
+            blk = range(per * k + 1, per * k + per + 1)
+            diagnosed = any(l in bad_lines for l in blk)
+            miss = tabs[ai] & ~tabs[ci]
+            res.outcomes["override:%s/accepted=%s/sound=%s" % (kind, not diagnosed, not miss)] += 1
+            if not diagnosed and miss:
+                kk = (miss & -miss).bit_length() - 1
+                npos, kws = shapes[kk]
+                call = "(%s)" % ", ".join(["0"] * npos + ["%s=0" % x for x in kws])
+                le, la = _canon(sigs[ai], sigs[ci])
+                res.violation({"kind": "override-unsound-accept", "which": kind, "expected": le, "actual": la, "cpython": "raises"},
+                              {"mode": "override-kinds", "tier": tier, "case": [kind, ai, ci], "order": 3 * 10 ** 9 + k},
+                              "%s m(%s) in the base class, m(%s) in the subclass: not reported as an incompatible override, yet A.m%s binds and C.m%s raises TypeError"
+                              % (kind, S.render_params(sigs[ai]), S.render_params(sigs[ci]), call, call))
+    res.sample({"override_kinds": ["staticmethod", "classmethod", "method"], "signatures": len(sigs)})
 
 
 def _override(res, tier, ci, only=None):
@@ -297,6 +352,8 @@ def run_unit(unit):
     res = UnitResult()
     if kind == "untyped":
         _untyped(res, tier, lo, hi)
+    elif kind == "override-kinds":
+        _override_kinds(res, tier)
     elif kind == "override":
         _override(res, tier, lo)
     else:
@@ -306,6 +363,9 @@ def run_unit(unit):
 
 def replay(case):
     res = UnitResult()
+    if case["mode"] == "override-kinds":
+        _override_kinds(res, case.get("tier", "quick"), only=case["case"])
+        return list(res.viol.values())
     if case["mode"] == "override":
         _override(res, case.get("tier", "quick"), case["c"], only=case["pair"])
         return list(res.viol.values())
